@@ -109,7 +109,14 @@ Clean == /\ ent' = [k \in Keys |-> IF Expired(k) THEN NoEntry ELSE ent[k]]
          /\ UNCHANGED <<rcvd, quiet>>
 Heal == /\ ~quiet /\ quiet' = TRUE /\ act' = [name |-> "heal"] /\ UNCHANGED <<ent, rcvd>>
 
+(* A hello exchange (end-to-end key set-up) with router x completes: it is no  *)
+(* business of the connection table.                                           *)
+Hello(x) == /\ x \in Remotes
+            /\ act' = [name |-> "hello", r |-> x]
+            /\ UNCHANGED <<ent, rcvd, quiet>>
+
 Next == \/ \E k \in OutKeys : Out(k)
+        \/ \E x \in Remotes : Hello(x)
         \/ \E k \in Keys : In(k)
         \/ \E from \in Senders, code \in Codes, x \in Remotes, s \in Svcs : Err(from, code, x, s)
         \/ Tick \/ Jump \/ Clean \/ Heal
